@@ -4,13 +4,7 @@ import vlib
 
 
 def cfg(chk, name, maxcalls, gen):
-    p = chk.path(name + ".cfg")
-    with open(p, "w") as f:
-        f.write("SPECIFICATION MCSpec\nCONSTANTS\n  P = 31723\n  MaxCalls = %d\n  GEN = %s\n" % (maxcalls, "TRUE" if gen else "FALSE"))
-        f.write("INVARIANT MCInv\nINVARIANT Emit\nCHECK_DEADLOCK FALSE\n")
-        if not gen:
-            f.write("VIEW View\n")
-    return p
+    return vlib.builder_cfg(chk, name, maxcalls, gen, rich=False)
 
 
 def report(chk, rows, what):
